@@ -256,6 +256,13 @@ func c19Judge(c *fw.Ctx, es []c19Entry, family string) {
 			return
 		}
 	}
+	if verdictMarker != "" || lf.T == "application/vnd.android.package-archive" {
+		// OOXML / JAR / APK verdicts sit directly below application/zip
+		if len(ch) < 2 || lib.Base(ch[1].T) != "application/zip" || ch[1].Ext != ".zip" {
+			c.Violate("zip-family-parent", key, fmt.Sprintf("verdict %s does not have application/zip as its parent (hierarchy %s)", lf.T, ch), p)
+			return
+		}
+	}
 	if !ch.HasLink("application/zip", ".zip") {
 		c.Violate("zip-family-parent", key, fmt.Sprintf("an archive written by archive/zip is reported as %s, which does not have application/zip in its hierarchy", ch), p)
 		return
@@ -291,7 +298,7 @@ func c19Judge(c *fw.Ctx, es []c19Entry, family string) {
 }
 
 var c19Book = []string{"_rels/.rels", "docProps/app.xml", "docProps/core.xml", "docProps/", "docProps/thumbnail.jpeg", "customXml/item1.xml", "customXml/", "[trash]/0000.dat", "_rels/"}
-var c19Near = []string{"words/a.xml", "Word/document.xml", "xl.xml", "pptx/x", "x", "xl", "wor", "word", "pp", "ppt", "M", "META-INF/", "META-INF/MANIFEST.M", "XL/workbook.xml", "w/ord/", "x/l/", "mimetype2", "Mimetype"}
+var c19Near = []string{"res/", "res/icons/app.png", "res/drawabl", "res/messages.properties", "classes.de", "resources.ars", "AndroidManifest.xm", "words/a.xml", "Word/document.xml", "xl.xml", "pptx/x", "x", "xl", "wor", "word", "pp", "ppt", "M", "META-INF/", "META-INF/MANIFEST.M", "XL/workbook.xml", "w/ord/", "x/l/", "mimetype2", "Mimetype"}
 
 func c19Body(r *rand.Rand, aliasing bool, name string) []byte {
 	if aliasing {
@@ -387,6 +394,9 @@ func c19Run(c *fw.Ctx, b fw.Batch) {
 			}
 			if r.Intn(5) == 0 {
 				add(c19APKMarkers[r.Intn(len(c19APKMarkers))])
+			}
+			if r.Intn(4) == 0 {
+				add(c19Near[r.Intn(7)])
 			}
 		case fam == 6: // ODF / EPUB
 			var keys []string
